@@ -1,2 +1,6 @@
 -- Root of the `Codec` library (wire layer of ruthenium: properties C14 and C15).
 import Codec.Json
+import Codec.Wire
+import Codec.Handlers
+import Codec.Sha256
+import Codec.Parse
